@@ -13,6 +13,7 @@ A necessary condition: a table or decision evaluated with exchanged roles optimi
 different cost function.  That the recurrences are *the* optimum is not decided.
 """
 import ast
+import os
 
 from ..poly import PolyBuilder, patom, pkey, pstr
 from ..role import RoleFlow
@@ -76,6 +77,38 @@ def table_sites(fn, pb):
         if isinstance(s, ast.Assign) and len(s.targets) == 1 and isinstance(s.targets[0], ast.Name):
             assigned.setdefault(s.targets[0].id, []).append(s.value)
     out = []
+    blocks = [getattr(n, fld) for n in ast.walk(fn) for fld in ("body", "orelse", "finalbody")
+              if isinstance(getattr(n, fld, None), list)]
+
+    def last_defs(body, name):
+        """(definitions of name that may be the last one executed in this statement list, whether one certainly is)"""
+        for st in reversed(body):
+            if isinstance(st, ast.Assign) and len(st.targets) == 1 and isinstance(st.targets[0], ast.Name) \
+                    and st.targets[0].id == name:
+                return [st.value], True
+            if isinstance(st, ast.If):
+                d1, c1 = last_defs(st.body, name)
+                d2, c2 = last_defs(st.orelse, name)
+                if d1 or d2:
+                    if c1 and c2:
+                        return d1 + d2, True
+                    more, c3 = last_defs(body[:body.index(st)], name)
+                    return d1 + d2 + more, c3
+            elif isinstance(st, (ast.For, ast.While, ast.With, ast.Try)):
+                if any(isinstance(x, ast.Name) and x.id == name and isinstance(x.ctx, ast.Store) for x in ast.walk(st)):
+                    return list(assigned.get(name, [])), False
+        return [], False
+
+    def reaching(use, name):
+        for body in blocks:
+            for i, st in enumerate(body):
+                if isinstance(st, (ast.Assign, ast.Expr, ast.AugAssign, ast.Return)) and any(x is use for x in ast.walk(st)):
+                    defs, certain = last_defs(body[:i], name)
+                    if defs and certain:
+                        return defs
+                    # defined further out: every definition of the function may reach
+                    return list(assigned.get(name, []))
+        return list(assigned.get(name, []))
 
     def min_arg(call):
         if not (isinstance(call, ast.Call) and getattr(call.func, "id", None) == "min"):
@@ -93,8 +126,10 @@ def table_sites(fn, pb):
         if len(call.args) == 2:
             for x, y in ((call.args[0], call.args[1]), (call.args[1], call.args[0])):
                 if isinstance(y, ast.Name) and y.id in assigned:
-                    # the latest live definition that is itself a min over a comprehension
-                    for v in assigned[y.id]:
+                    # the definition that reaches this use: the last assignment before it in the same block (a
+                    # definition in a sibling branch does not reach it); a unique definition otherwise
+                    defs = reaching(call, y.id)
+                    for v in defs:
                         inner = min_arg(v)
                         if inner and inner["fallback"] is None:
                             return dict(comp=inner["comp"], fallback=x, via=v)
@@ -497,6 +532,8 @@ def run(chk, ctx):
                             dt + " [not definite: the table builder's loop variables have names the rule cannot assign to index roles]", nd)
                            for c, v, dt, nd in results]
         for c, v, dt, nd in results:
+            if os.environ.get("DEBUG_C07"):
+                print("DBG", c, v, dt[:300])
             chk.decide("C07.TABLE", c, v, dt, rel=drel, node=nd)
     # ---- USE
     reads = []
